@@ -600,6 +600,20 @@ def materialise(case, tmp: Path) -> Path:
     raise ValueError(case)
 
 
+# the documented meaning of the three error types on the cases that have one
+EXPECTED = {"missing": "FileError", "suffix": "FileFormatError", "iwph": "UnsupportedError"}
+
+
+def loader_fixture(name: str, tmp: Path) -> Path:
+    """Fixtures of the loader-level stream; 'encrypted.numbers' is built (a fixture plus the .iwph marker)."""
+    if name == "encrypted.numbers":
+        p = tmp / name
+        if not p.exists():
+            rebuild_zip(str(common.REPO / "tests/data/issue-18.numbers"), p, lambda n, b: b if b is not None else [(".iwph", b"x")])
+        return p
+    return common.REPO / "tests/data" / name
+
+
 def glue_case(case, tmp: Path):
     """-> (signature, detail) if the property is violated on this case."""
     p = materialise(case, tmp)
@@ -733,12 +747,12 @@ def run(ctx: Ctx) -> int:
         ctx.compare("store_blob", cs, reqs, outs, exe, nontrivial=lambda c, o: not o.startswith("iwa"))
 
     # ---------- (b) loader level
-    data = common.REPO / "tests/data"
-    fixtures = [data / "issue-18.numbers", data / "issue-32.numbers", data / "test-7.numbers", data / "test-5.numbers"]
+    names = ["issue-18.numbers", "issue-32.numbers", "test-7.numbers", "test-5.numbers"]
     if not ctx.quick:
-        fixtures += [data / "simple-func.numbers", data / "test-issue-76.numbers"]
-    fixtures += [data / "invalid.numbers", data / "invalid-missing.numbers", data / "invalid-props.numbers", data / "badindexzip.numbers",
-                 data / "corrupted.numbers", data / "invalid.numberz", data / "nonexistent.numbers"]
+        names += ["simple-func.numbers", "test-issue-76.numbers"]
+    names += ["encrypted.numbers", "invalid.numbers", "invalid-missing.numbers", "invalid-props.numbers", "badindexzip.numbers",
+              "corrupted.numbers", "invalid.numberz", "nonexistent.numbers"]
+    fixtures = [loader_fixture(n, ctx.tmp) for n in names]
     reqs, outs, cs = [], [], []
     for fxp in fixtures:
         base = Injector()
@@ -746,7 +760,7 @@ def run(ctx: Ctx) -> int:
         reqs.append(f"load\t{int(fx['boundary'])}\t{int(fx['store'])}\t{';'.join(base.script)}")
         outs.append(out)
         cs.append([fxp.name, "clean"])
-        if fxp.name.startswith(("invalid", "bad", "corrupt", "nonexist")):
+        if fxp.name.startswith(("invalid", "bad", "corrupt", "nonexist", "encrypted")):
             continue
         for site, total in sorted(base.count.items()):
             ks = sorted({1, 2, total, (total + 1) // 2} | {rng.randrange(1, total + 1) for _ in range(2 if ctx.quick else 6)})
@@ -783,6 +797,9 @@ def run(ctx: Ctx) -> int:
         tally[key] = tally.get(key, 0) + 1
         if kind in ("escape", "oracle-crash"):
             fail("glue", "escape:" + det, case, f"Document() on {case}: {det} escaped from container loading")
+        want = EXPECTED.get(case[0])
+        if want and kind in ("ok", "lib") and det != want:
+            fail("glue", f"wrong-class:{case[0]}", case, f"Document() on {case}: expected {want}, got {kind} {det}")
     for k, v in sorted(tally.items()):
         ctx.dist(k, v)
     # real damaged files first, then single members, then injected faults
@@ -849,7 +866,11 @@ def replay(path: str) -> int:
     elif case[0] == "inject":
         _, fxn, site, k, ename = case
         exc, code = next((e, c) for e, c in exc_table() if (e.__name__ if isinstance(e, type) else "UnicodeDecodeError") == ename)
-        out = run_loader(common.REPO / "tests/data" / fxn, Injector(site, k, exc, code))
+        tmp = Path(tempfile.mkdtemp(prefix="verif_C17_replay_"))
+        try:
+            out = run_loader(loader_fixture(fxn, tmp), Injector(site, k, exc, code))
+        finally:
+            shutil.rmtree(tmp, ignore_errors=True)
         if out.startswith("!") and out[1:] not in LIB_OK:
             bad = f"ObjectStore({fxn}) with {ename} at {site} call #{k} ended in {out}"
     else:
@@ -860,6 +881,8 @@ def replay(path: str) -> int:
             shutil.rmtree(tmp, ignore_errors=True)
         if kind == "escape":
             bad = f"Document() on {case}: {det} escaped from container loading"
+        elif EXPECTED.get(case[0]) and kind in ("ok", "lib") and det != EXPECTED[case[0]]:
+            bad = f"Document() on {case}: expected {EXPECTED[case[0]]}, got {kind} {det}"
     if bad:
         print("replay: still failing: " + bad)
         print(f"VIOLATION property=C17 replay={path}")
